@@ -9,20 +9,31 @@ R-DISPATCH assign() is implemented for {TwoBodyDecay, tuple, str, Particle}; eve
            implementation ends in the single store; selection by name compares the parent.
 R-SAMEDECAY the builder is looked up with the decay of the same (transition, node) whose
            variables it receives.
+
+How the rules read the code (second robustness round): the variable set, the builders' pool wiring, defaults and
+parameter names are decided on TERMS of the public behaviour (``RelativisticBreitWignerBuilder.__call__`` under its
+flag combinations, symbols identified by name - see sa/props/c12.py); the selector (R-DISPATCH, R-ONESTORE,
+R-DYNDOMAIN) and ``__formulate_dynamics`` (R-SAMEDECAY) are executed symbolically (sa/symex.py, ``MethodRun``) and
+judged on their EFFECTS: which (key, value) pairs reach the store for which ranges under which conditions, which
+value is returned on which path (singledispatch overloads or an isinstance chain, loops / comprehensions / generator
+helpers / ``filter`` / ``dict.fromkeys``, ``in`` / ``try: .. except KeyError`` / ``.get(..) is None``, keyword /
+starred calls).  Three-valued verdicts: only a completely followed value that breaks the condition is a VIOLATION.
 """
 
 from __future__ import annotations
 
 import ast
 
-from ..dataflow import RD
-from ..inline import Inliner
-from ..loader import AnalysisError, Tree, ancestors, unparse, walk_function
+from ..loader import AnalysisError, Tree, unparse, walk_function
 from ..poly import RF, D, equal, sym
 from ..report import Check
 from ..rules import symbol_sites
+from ..symex import (SymEx, alternatives, as_number, calls_of, cases, contains, expand_ranges, flatten_each, free_eaches, func_name, not_followed, show, show_pc, subterms,
+                     unwrap)
 from ..terms import DictV, Opaque, TermEval, Tup
-from .c12 import builder_env
+from .c02 import same_self as _same_self
+from .c02 import mentions, whole_collection
+from .c12 import BUILDER, builder_env, builder_pair, builder_results, resonance_symbols, the_resonance_symbols
 
 PID = "C13"
 HEL = "ampform.helicity"
@@ -112,10 +123,14 @@ def check_variable_set(ctx: Check, tree: Tree) -> None:
              "PHI": "phi of decay.children[0]", "THETA": "theta of decay.children[0]"}
 
     def same(got, w) -> bool:
-        try:
-            return got is not None and equal(te._rf(got), w)
-        except AnalysisError:
+        """Three-valued: equal / a term that differs (or no such role at all) - a value that is no scalar term is undecided."""
+        if got is None:
             return False
+        try:
+            term = te._rf(got)
+        except AnalysisError as exc:
+            raise AnalysisError(f"a role of the variable set does not evaluate to a scalar term ({got!r:.80}): {exc}") from None
+        return equal(term, w)
 
     problems = []
     for roles, _ in sets:
@@ -155,21 +170,30 @@ def check_variable_set(ctx: Check, tree: Tree) -> None:
 
 
 def check_builders_use_pool(ctx: Check, tree: Tree) -> None:
+    """The library builders are read through their public behaviour: ``RelativisticBreitWignerBuilder.__call__`` under
+    the flag combinations (form factor only / energy dependent width only / plain) and ``create_non_dynamic_with_ff``;
+    the instance keys keep the names of the private helpers that produce these parts today."""
     D.reset()
     te = TermEval(tree)
     pool, resonance, self_struct = builder_env(te)
     M, m1, m2, L = pool["incoming_state_mass"], pool["outgoing_state_mass1"], pool["outgoing_state_mass2"], pool["angular_momentum"]
-    cls = tree.cls(f"{BLD}::RelativisticBreitWignerBuilder")
-    symbols = te.eval_function(cls.methods["__create_symbols"], [resonance])
-    res_mass, res_width, radius = symbols.items
+    cls = tree.cls(BUILDER)
+    results = builder_results(te, tree, self_struct, resonance, pool)
+    res_mass, res_width, radius = the_resonance_symbols(te, results)
+    nd_ff = tree.func(f"{BLD}::create_non_dynamic_with_ff")
+    nd_val = builder_pair(te.eval_function(nd_ff, [resonance, pool]), "create_non_dynamic_with_ff(resonance, variable_pool)")
+
+    def loc(name: str) -> str:
+        return tree.loc((cls.methods.get(name) or cls.methods["__call__"]).node)
+
+    ff_roles = {"s": M**2, "m1": m1, "m2": m2, "angular_momentum": L}
+    edw_roles = {"s": M**2, "m_a": m1, "m_b": m2, "angular_momentum": L}
     cases = [
-        (tree.func(f"{BLD}::create_non_dynamic_with_ff"), [resonance, pool], "FormFactor", {"s": M**2, "m1": m1, "m2": m2, "angular_momentum": L}),
-        (cls.methods["__create_form_factor"], [self_struct, resonance, pool], "FormFactor", {"s": M**2, "m1": m1, "m2": m2, "angular_momentum": L}),
-        (cls.methods["__energy_dependent_breit_wigner"], [self_struct, resonance, pool], "EnergyDependentWidth", {"s": M**2, "m_a": m1, "m_b": m2, "angular_momentum": L}),
+        (nd_ff.qual, tree.loc(nd_ff.node), nd_val, "FormFactor", ff_roles),
+        (f"{cls.qual}.__create_form_factor", loc("__create_form_factor"), results[False, True], "FormFactor", ff_roles),
+        (f"{cls.qual}.__energy_dependent_breit_wigner", loc("__energy_dependent_breit_wigner"), results[True, False], "EnergyDependentWidth", edw_roles),
     ]
-    for fn, args, cls_name, roles in cases:
-        val = te.eval_function(fn, args)
-        expr = val.items[0] if isinstance(val, Tup) else val
+    for qual, where, (expr, defaults), cls_name, roles in cases:
         apps = [a for a in _deep_app_atoms(te, expr) if te.apps[a].cls.endswith(f"::{cls_name}")]
         problems = []
         if len(apps) != 1:
@@ -179,19 +203,21 @@ def check_builders_use_pool(ctx: Check, tree: Tree) -> None:
             ecls = te.classes[info.cls]
             got = dict(zip([f.name for f in ecls.sympy_fields], info.args))
             for role, want in roles.items():
-                if role not in got or not equal(te._rf(got[role]), want):
+                if role not in got:
+                    raise AnalysisError(f"vanished anchor: {cls_name} has no field `{role}`")
+                if not equal(te._rf(got[role]), want):
                     problems.append(f"{role} = {got.get(role)!r} instead of {want!r}")
-        ctx.verdict(not problems, "R-TERM", f"{fn.qual}::pool-wiring", tree.loc(fn.node),
-                    f"{fn.qual.split('::')[-1]}: {cls_name} receives s = incoming_state_mass^2, the two outgoing masses and variable_pool.angular_momentum", problems or None)
-        # defaults
-        if isinstance(val, Tup) and isinstance(val.items[1], DictV):
-            check_defaults(ctx, tree, te, fn, val.items[1], res_mass, res_width, radius)
-    simple = te.eval_function(cls.methods["__simple_breit_wigner"], [resonance, pool])
-    if isinstance(simple, Tup) and isinstance(simple.items[1], DictV):
-        check_defaults(ctx, tree, te, cls.methods["__simple_breit_wigner"], simple.items[1], res_mass, res_width, radius)
-    nd = te.eval_function(tree.func(f"{BLD}::create_non_dynamic"), [resonance, pool])
-    ok = isinstance(nd, Tup) and isinstance(nd.items[0], RF) and equal(nd.items[0], RF.const(1)) and isinstance(nd.items[1], DictV) and not nd.items[1].items
-    ctx.verdict(ok, "R-TERM", f"{BLD}::create_non_dynamic", tree.loc(tree.func(f"{BLD}::create_non_dynamic").node), "create_non_dynamic returns (1, {}) - unassigned nodes leave the amplitude untouched")
+        ctx.verdict(not problems, "R-TERM", f"{qual}::pool-wiring", where,
+                    f"{qual.split('::')[-1]}: {cls_name} receives s = incoming_state_mass^2, the two outgoing masses and variable_pool.angular_momentum", problems or None)
+        check_defaults(ctx, tree, te, qual, where, defaults, res_mass, res_width, radius)
+    check_defaults(ctx, tree, te, f"{cls.qual}.__simple_breit_wigner", loc("__simple_breit_wigner"), results[False, False][1], res_mass, res_width, radius)
+    nd_fn = tree.func(f"{BLD}::create_non_dynamic")
+    nd_expr, nd_defaults = builder_pair(te.eval_function(nd_fn, [resonance, pool]), "create_non_dynamic(resonance, variable_pool)")
+    if not isinstance(nd_expr, (RF, int)):
+        raise AnalysisError(f"create_non_dynamic: the expression evaluates to {type(nd_expr).__name__}")
+    ok = equal(te._rf(nd_expr), RF.const(1)) and not nd_defaults.items
+    ctx.verdict(ok, "R-TERM", f"{BLD}::create_non_dynamic", tree.loc(nd_fn.node), "create_non_dynamic returns (1, {}) - unassigned nodes leave the amplitude untouched",
+                None if ok else repr((nd_expr, nd_defaults))[:200])
 
 
 def _deep_app_atoms(te: TermEval, v) -> set:
@@ -200,7 +226,7 @@ def _deep_app_atoms(te: TermEval, v) -> set:
     return {a for a in deep_atoms(te, v) if te.is_app(a) and a in te.apps}
 
 
-def check_defaults(ctx: Check, tree: Tree, te: TermEval, fn, defaults: DictV, res_mass, res_width, radius) -> None:
+def check_defaults(ctx: Check, tree: Tree, te: TermEval, qual: str, where: str, defaults: DictV, res_mass, res_width, radius) -> None:
     want = {
         repr(te._rf(res_mass).key()): ("mass", Opaque(("attr", ("resonance",), "mass"))),
         repr(te._rf(res_width).key()): ("width", Opaque(("attr", ("resonance",), "width"))),
@@ -216,8 +242,8 @@ def check_defaults(ctx: Check, tree: Tree, te: TermEval, fn, defaults: DictV, re
         same = (isinstance(w, RF) and isinstance(v, RF) and equal(v, w)) or (isinstance(w, Opaque) and isinstance(v, Opaque) and v.key == w.key)
         if not same:
             problems.append(f"default of the {role} parameter is {v!r}, not {'resonance.' + role if role != 'radius' else '1'}")
-    ctx.verdict(not problems, "R-DEFAULTS", f"{fn.qual}::defaults", tree.loc(fn.node),
-                f"{fn.qual.split('::')[-1]}: parameter defaults {{m_res: resonance.mass, Gamma_res: resonance.width, d_res: 1}} ({len(defaults.items)} entries)", problems or None)
+    ctx.verdict(not problems, "R-DEFAULTS", f"{qual}::defaults", where,
+                f"{qual.split('::')[-1]}: parameter defaults {{m_res: resonance.mass, Gamma_res: resonance.width, d_res: 1}} ({len(defaults.items)} entries)", problems or None)
 
 
 def check_symbol_duplicates(ctx: Check, tree: Tree) -> None:
@@ -232,301 +258,742 @@ def check_symbol_duplicates(ctx: Check, tree: Tree) -> None:
     if len(groups) < 3:
         raise AnalysisError(f"only {len(groups)} distinct parameter symbols are constructed in dynamics/builder.py (mass, width, meson radius confirmed; {len(sites)} sites)")
     for skel, members in sorted(groups.items()):
-        if len(members) < 2:
+        by_site = {id(m["node"]): m for m in members}  # (one entry per alternative name of a site)
+        if len(by_site) < 2:
             continue
+        unread = sorted({u for m in members for u in m.get("unread", [])})
+        if unread:
+            raise AnalysisError(f"symbol `{skel}`: the assumptions of a construction site could not be read ({unread[:3]})")
         sigs = {(m["kind"], tuple(sorted(m["assumptions"].items()))) for m in members}
         ctx.verdict(len(sigs) == 1, "R-DEFAULTS", f"{BLD}::symbol `{skel}`", tree.loc(members[0]["node"]),
-                    f"symbol `{skel}`: {len(members)} construction sites in builder.py agree in kind and assumptions (equal-named parameters are one parameter)",
+                    f"symbol `{skel}`: {len(by_site)} construction sites in builder.py agree in kind and assumptions (equal-named parameters are one parameter)",
                     None if len(sigs) == 1 else [{"fn": m["fn"], "assumptions": m["assumptions"]} for m in members])
-    # every site builds the identifier the same way: the placeholder of each symbol name
-    idents = set()
-    for m_ in sites:
-        fn = tree.funcs[m_["fn"]]
-        rd = RD(fn.node)
-        name_node = m_["node"].args[0]
-        for ph in [v.value for v in ast.walk(name_node) if isinstance(v, ast.FormattedValue)]:
-            if isinstance(ph, ast.Name):
-                vals = {unparse(d.value) for d in rd.reaching(ph) if d.value is not None}
-                idents |= vals or {ph.id}
-            else:
-                idents.add(unparse(ph))
-    ctx.verdict(len(idents) == 1, "R-DEFAULTS", f"{BLD}::identifier", BLD.replace(".", "/"), f"the resonance identifier is built the same way at every site: {sorted(idents)}")
+    # every builder names the parameters of a resonance the same way: over all public builders there is ONE mass symbol,
+    # ONE width symbol and ONE meson-radius symbol (the names are read off the terms the builders produce, so helpers,
+    # temporaries and the way the identifier is spliced into the name do not matter); two constructions of one name
+    # that were evaluated agree in constructor and assumptions
+    D.reset()
+    te = TermEval(tree)
+    pool, resonance, self_struct = builder_env(te)
+    values = [x for pair in builder_results(te, tree, self_struct, resonance, pool).values() for x in pair]
+    mod = tree.module(BLD)
+    for name, st in mod.toplevel.items():
+        if isinstance(st, ast.FunctionDef) and not name.startswith("_") and [a.arg for a in st.args.args] == ["resonance", "variable_pool"]:
+            values += list(builder_pair(te.eval_function(tree.func(f"{BLD}::{name}"), [resonance, pool]), f"{name}(resonance, variable_pool)"))
+    found = resonance_symbols(te, *values)
+    several = {role: names for role, names in found.items() if len(names) > 1}
+    disagree = {n: made for names in found.values() for n in names for made in [te.symbol_constructions.get(n, [])] if len({(k, tuple(sorted(a.items()))) for k, a in made}) > 1}
+    ok = not several and not disagree
+    ctx.verdict(ok, "R-DEFAULTS", f"{BLD}::identifier", BLD.replace(".", "/"),
+                f"the resonance identifier is built the same way in every builder: {sorted(n for names in found.values() for n in names)}",
+                None if ok else {"several symbols for one role": several, "constructions that disagree": {k: [a for _, a in v] for k, v in disagree.items()}})
 
 
-def _is_store_view(e: ast.AST) -> bool:
-    """`self.__choices`, `self.__choices.keys()`, `list(self.__choices)`, `tuple(...)`: all registered decays."""
-    while True:
-        if isinstance(e, ast.Call) and isinstance(e.func, ast.Name) and e.func.id in {"list", "tuple", "iter"} and len(e.args) == 1 and not e.keywords:
-            e = e.args[0]
-        elif isinstance(e, ast.Call) and isinstance(e.func, ast.Attribute) and e.func.attr == "keys" and not e.args and not e.keywords:
-            e = e.func.value
+# --------------------------------------------------------------------------- the selector, read by symbolic execution
+# DynamicsSelector and HelicityAmplitudeBuilder.__formulate_dynamics are executed symbolically (sa/symex.py): helper
+# methods and module-level generator functions are inlined, comprehensions / loops / `map` / `dict.fromkeys` give the
+# same values, and the rules read the EFFECTS - which (key, value) pairs reach the store under which ranges and
+# conditions, which value is returned on which path.  A fully followed value that breaks the condition is a
+# VIOLATION; anything the execution or this reading cannot interpret is an ANALYSIS-ERROR.
+
+SELECTOR = f"{HEL}::DynamicsSelector"
+SEL_ATOMS = frozenset({"assign", "TwoBodyDecay.create", "create", "from_transition", "_perform_combinatorics", "_freeze", "_generate_kinematic_variable_set"})
+SEL_KNOWN = ("assign", "TwoBodyDecay.create", "TwoBodyDecay.from_transition", "_perform_combinatorics", "_freeze", "_generate_kinematic_variable_set", "create_non_dynamic")
+SELF = ("param", "self")
+
+
+def _norm(v):
+    """``_same_self`` + collected iterations flattened (``symex.flatten_each``)."""
+    return flatten_each(_same_self(v))
+
+
+def _self_attr(v) -> str | None:
+    """``"__choices"`` for the value of ``self.__choices``."""
+    return v[2] if isinstance(v, tuple) and len(v) == 3 and v[0] == "attr" and v[1] == SELF else None
+
+
+def _view_of(v) -> str | None:
+    """The attribute of ``self`` whose keys ``v`` enumerates completely: ``self.S``, ``self.S.keys()``, ``list(self.S)`` ..."""
+    while isinstance(v, tuple) and v and v[0] == "call":
+        f = v[1]
+        if f[0] == "builtin" and f[1] in {"list", "tuple", "iter", "sorted", "set", "frozenset"} and len(v[2]) == 1:
+            v = v[2][0]
+        elif f[0] == "attr" and f[2] in {"keys", "copy"} and not v[2]:
+            v = f[1]
         else:
-            break
-    return isinstance(e, ast.Attribute) and "__choices" in e.attr and isinstance(e.value, ast.Name) and e.value.id == "self"
+            return None
+    return _self_attr(v)
 
 
-def _selection_by_name(fn: ast.FunctionDef) -> list[str]:
-    """assign[str]: the decays that get the builder are exactly {d in store : d.parent.particle.name == <name>}.
-    The selection may be spelled as a guarded store inside a loop over the store, with `continue` guards, or as
-    a filtered comprehension over the store that a second loop applies: the rule collects, for the one store
-    `store[d] = builder`, where d ranges (all registered decays) and every condition between the range and the
-    store, in whatever clause it is written."""
-    rd = RD(fn)
-    sel_param = fn.args.args[1].arg if len(fn.args.args) > 1 else None
-    stores = [n for n in ast.walk(fn) if isinstance(n, ast.Assign) and isinstance(n.targets[0], ast.Subscript) and "__choices" in unparse(n.targets[0].value)]
-    if len(stores) != 1:
-        return [f"{len(stores)} stores into the choices (one expected)"]
-    store = stores[0]
-    key = store.targets[0].slice
-    loop = next((a for a in ancestors(store) if isinstance(a, ast.For) and isinstance(a.target, ast.Name) and isinstance(key, ast.Name) and a.target.id == key.id), None)
-    if loop is None:
-        if any(isinstance(a, ast.For) for a in ancestors(store)):
-            return ["stores under a key other than the iterated decay"]
-        return ["does not iterate all registered decays"]
-    problems: list[str] = []
-    conds: list[tuple[ast.AST, bool, str]] = []  # (test, required outcome, name of the decay variable)
-    # conditions inside the loop: enclosing ifs, and `if c: continue` guards in front of the store
-    node = store
-    for a in ancestors(store):
-        if a is loop:
-            break
-        if isinstance(a, ast.If):
-            conds.append((a.test, any(node is b or any(node is x for x in ast.walk(b)) for b in a.body), loop.target.id))
-        elif isinstance(a, (ast.For, ast.While)):
-            problems.append("the store sits in a nested loop")
-        node = a
-    for st in loop.body:
-        if st is node:
-            break
-        if isinstance(st, ast.If) and st.body and all(isinstance(b, ast.Continue) for b in st.body) and not st.orelse:
-            conds.append((st.test, False, loop.target.id))
-    # the range of the loop: the store itself, or a local holding a filtered comprehension over the store
-    it = loop.iter
-    if not _is_store_view(it):
-        src = None
-        if isinstance(it, ast.Name):
-            defs = list(rd.reaching(it))
-            if len(defs) == 1 and defs[0].kind == "assign" and defs[0].index is None and defs[0].value is not None:
-                src = defs[0].value
-        elif isinstance(it, (ast.ListComp, ast.GeneratorExp)):
-            src = it
-        while isinstance(src, ast.Call) and isinstance(src.func, ast.Name) and src.func.id in {"list", "tuple"} and len(src.args) == 1 and not src.keywords:
-            src = src.args[0]
-        if (isinstance(src, (ast.ListComp, ast.GeneratorExp)) and len(src.generators) == 1 and isinstance(src.generators[0].target, ast.Name)
-                and isinstance(src.elt, ast.Name) and src.elt.id == src.generators[0].target.id and _is_store_view(src.generators[0].iter)):
-            conds += [(c, True, src.generators[0].target.id) for c in src.generators[0].ifs]
+class Effect:
+    """One write into a mapping attribute of ``self``: ``self.<store>[key] = value`` for all ``ranges`` under ``pc``."""
+
+    def __init__(self, store, key, value, pc, ranges, loops, text) -> None:
+        self.store, self.key, self.value, self.pc, self.ranges, self.loops, self.text = store, key, value, pc, ranges, loops, text
+
+
+class MethodRun:
+    """The symbolic execution of one method of the selector: writes, delegations to ``assign``, returned value."""
+
+    def __init__(self, tree: Tree, fn, atoms=SEL_ATOMS) -> None:
+        self.fn = fn
+        sx = SymEx(tree, atoms=atoms, inline_depth=6)
+        ret, final = sx.run(fn)
+        self.sx = sx
+        self.ret = _norm(ret)
+        self.raises = final.status == "raise"
+        self.effects: list[Effect] = []
+        self.rebinds: list[tuple] = []  # (attribute, value) of `self.attr = value`
+        self.mutations: list[str] = []  # other in-place modifications of attributes of self: (attribute, text)
+        self.delegations: list[tuple] = []  # (pc, loops, call value) of self.assign(...)
+        by_uid = {info.uid: info for info in sx.loops.values()}
+        for ev in sx.events:
+            kind, pc, ctx_loops = ev[0], _norm(ev[1]) if ev[1] else (), ev[-1]
+            infos = [by_uid.get(u) for u in ctx_loops]
+            if kind == "store":
+                target, value = _norm(ev[2]), _norm(ev[3])
+                if target[0] == "sub" and _self_mapping_path(target[1]):
+                    self._add(_path_name(target[1]), target[2], value, pc, infos, show(target)[:80], mapping=target[1])
+                elif _self_attr(target):
+                    self.rebinds.append((_self_attr(target), value))
+                    if value[0] == "dictcomp" and all(unwrap(x)[2][0] == "tuple" and len(unwrap(x)[2][1]) == 2 for x in value[1]):
+                        for item in value[1]:
+                            eaches, pcs, pair = unwrap(item)
+                            self._add(_self_attr(target), pair[1][0], pair[1][1], pc + pcs, infos, show(target)[:80], extra=eaches)
+                    elif value[0] == "dict":
+                        for k, x in value[1]:
+                            if k[0] == "star":
+                                self.mutations.append((_self_attr(target), f"`{show(value)[:60]}`"))
+                                continue
+                            eaches, pcs, key = unwrap(k)
+                            self._add(_self_attr(target), key, x, pc + pcs, infos, show(target)[:80], extra=eaches)
+                    elif not (value[0] == "call" and value[1] in {("builtin", "dict")} and not value[2]):
+                        self.mutations.append((_self_attr(target), f"`{show(target)[:40]} = {show(value)[:60]}`"))
+            elif kind == "call":
+                v = _norm(ev[2])
+                f = v[1]
+                if f[0] == "method" and f[1].endswith(".assign"):
+                    self.delegations.append((pc, infos, v))
+                elif f[0] == "attr" and _self_attr(f[1]) and f[2] in {"update", "setdefault", "pop", "clear", "popitem", "__setitem__", "__delitem__"}:
+                    attr = _self_attr(f[1])
+                    arg = v[2][0] if len(v[2]) == 1 and not v[3] else None
+                    if f[2] == "update" and isinstance(arg, tuple) and arg and arg[0] == "dict" and not any(k[0] == "star" for k, _ in arg[1]):
+                        for k, x in arg[1]:
+                            eaches, pcs, key = unwrap(k)
+                            self._add(attr, key, x, pc + pcs, infos, show(v)[:80], extra=eaches)
+                    elif f[2] == "update" and isinstance(arg, tuple) and arg and arg[0] in {"list", "tuple"} and arg[1] and all(
+                            unwrap(x)[2][0] == "tuple" and len(unwrap(x)[2][1]) == 2 for x in arg[1]):
+                        # `m.update((k, v) for ...)`: the entries of the pairs
+                        for item in arg[1]:
+                            eaches, pcs, pair = unwrap(item)
+                            self._add(attr, pair[1][0], pair[1][1], pc + pcs, infos, show(v)[:80], extra=eaches)
+                    elif f[2] == "__setitem__" and len(v[2]) == 2:
+                        self._add(attr, v[2][0], v[2][1], pc, infos, show(v)[:80])
+                    else:
+                        self.mutations.append((attr, f"`{show(v)[:80]}`"))
+        for x in subterms(self.ret):
+            if x[0] == "call" and x[1][0] == "method" and x[1][1].endswith(".assign"):
+                self.delegations.append(((), [], x))
+
+    def _add(self, store, key, value, pc, infos, text, extra=(), mapping=None) -> None:
+        if any(i is None or i.each is None for i in infos):
+            self.mutations.append((store, f"{text} inside a `while` loop"))
+            return
+        raw = [_same_self(i.each) for i in infos] + [_same_self(e) for e in extra]
+        ranges, conds = expand_ranges(raw)
+        key, value = _norm(key), _norm(value)
+        # "the collection is not empty" is implied by an iteration over that very collection
+        implied = {_norm(e[1]) for e in raw}
+        pc = tuple((t, o) for t, o in pc if not (o is True and t in implied)) + conds
+        for e in free_eaches(("tuple", (key, value, pc))):
+            if e not in ranges:
+                ranges += (e,)
+        eff = Effect(store, key, value, pc, ranges, [i for i in infos], text)
+        eff.mapping = mapping if mapping is not None else ("attr", SELF, store)
+        self.effects.append(eff)
+
+    def leaves_loops_early(self) -> list[str]:
+        """`break` / `return` statements inside the loops that carry a write (a match stops the iteration)."""
+        from .c02 import early_exits
+
+        eaches = [r for eff in self.effects for r in eff.ranges] + [_same_self(i.each) for eff in self.effects for i in eff.loops]
+        return early_exits(self.sx, eaches)
+
+
+def selector_overloads(tree: Tree, cls) -> tuple:
+    """(base method, {type name: FuncInfo}) of the singledispatchmethod ``assign``: registrations by argument
+    (``@assign.register(T)``) or by the annotation of the first parameter (``@assign.register``)."""
+    base = None
+    impls: dict[str, object] = {}
+    for st in cls.node.body:
+        if not isinstance(st, ast.FunctionDef):
+            continue
+        for dec in st.decorator_list:
+            target = dec.func if isinstance(dec, ast.Call) else dec
+            resolved = tree.resolve(cls.module, target) or unparse(target)
+            if st.name == "assign" and resolved.split(".")[-1] == "singledispatchmethod":
+                base = st
+            if isinstance(target, ast.Attribute) and target.attr == "register" and isinstance(target.value, ast.Name) and target.value.id == "assign":
+                types = list(dec.args) if isinstance(dec, ast.Call) else []
+                if not types:
+                    params = [a for a in st.args.args[1:2] if a.annotation is not None]
+                    types = [params[0].annotation] if params else []
+                    if types and isinstance(types[0], ast.Constant) and isinstance(types[0].value, str):
+                        types = [ast.parse(types[0].value, mode="eval").body]
+                if not types:
+                    raise AnalysisError(f"DynamicsSelector: `{unparse(dec)}` registers an overload whose type cannot be read")
+                for t in types:
+                    for alt in (t.elts if isinstance(t, ast.Tuple) else [t.left, t.right] if isinstance(t, ast.BinOp) and isinstance(t.op, ast.BitOr) else [t]):
+                        impls[unparse(alt).split(".")[-1]] = tree.func_of(st)
+    return base, impls
+
+
+def _isinstance_types(t, sel):
+    """The type names of ``isinstance(<sel>, T)`` / ``isinstance(<sel>, (T1, T2))`` if ``t`` is such a test, else None."""
+    if not (isinstance(t, tuple) and t and t[0] == "call" and t[1] == ("builtin", "isinstance") and len(t[2]) == 2 and t[2][0] == sel and not t[3]):
+        return None
+    spec = t[2][1]
+    names = []
+    for x in (spec[1] if spec[0] == "tuple" else (spec,)):
+        if x[0] in {"global", "builtin"} and isinstance(x[1], str):
+            names.append(x[1].split("::")[-1].split(".")[-1])
         else:
-            problems.append("does not iterate all registered decays")
-    if any(isinstance(n, (ast.Break, ast.Return)) for n in ast.walk(loop)):
-        problems.append("stops at the first match (other chains with the same resonance keep their old builder)")
-    if not conds:
-        problems.append("no name comparison")
-    n_name = 0
-    for test, outcome, var in conds:
-        t, out = test, outcome
-        while isinstance(t, ast.UnaryOp) and isinstance(t.op, ast.Not):
-            t, out = t.operand, not out
-        sides = []
-        if isinstance(t, ast.Compare) and len(t.ops) == 1 and isinstance(t.ops[0], (ast.Eq, ast.NotEq)) and isinstance(t.ops[0], ast.Eq) == out:
-            for side in (t.left, t.comparators[0]):
-                txt = unparse(side)
-                for d in rd.closure(rd.uses(side)):
-                    if d.value is not None:
-                        txt += " <- " + unparse(d.value)
-                sides.append(txt)
-        joined = " | ".join(sides)
-        if f"{var}.children" in joined:
-            problems.append("selection looks at the children")
-        if f"{var}.parent.particle" in joined and ".name" in joined and (sel_param is None or any(sel_param in s_ and f"{var}.parent" not in s_ for s_ in sides)):
-            n_name += 1
-        else:
-            problems.append(f"condition `{unparse(test)}` ({'must hold' if outcome else 'must not hold'}): selection is not by the parent particle's name alone")
-    if conds and not n_name and not any("selection is not by" in p_ for p_ in problems):
-        problems.append("no name comparison")
-    return problems
+            return None
+    return names
+
+
+class TypedRun:
+    """The part of one run of ``assign(self, selection, builder)`` that applies when ``selection`` is an instance of ONE of
+    the (pairwise unrelated) selection types - an isinstance chain instead of singledispatch: the writes and delegations
+    whose path condition is consistent with that type, without the isinstance tests."""
+
+    def __init__(self, run: MethodRun, sel, type_name: str | None) -> None:
+        self.fn, self.sx, self.rebinds, self.mutations, self.ret = run.fn, run.sx, run.rebinds, run.mutations, run.ret
+        self.raises = False
+        self.tested = False
+        self._sel, self._type = sel, type_name
+        self.effects = []
+        for e in run.effects:
+            pc = self.strip(e.pc)
+            if pc is not None:
+                eff = Effect(e.store, e.key, e.value, pc, e.ranges, e.loops, e.text)
+                eff.mapping = e.mapping
+                self.effects.append(eff)
+        self.delegations = [(pc2, loops, d) for pc, loops, d in run.delegations for pc2 in [self.strip(pc)] if pc2 is not None]
+        self._run = run
+
+    def strip(self, pc):
+        out = []
+        for t, o in pc:
+            names = _isinstance_types(t, self._sel)
+            if names is None:
+                out.append((t, o))
+                continue
+            self.tested = True
+            if (self._type in names) != o:
+                return None
+        return tuple(out)
+
+    def leaves_loops_early(self) -> list[str]:
+        from .c02 import early_exits
+
+        return early_exits(self.sx, [r for eff in self.effects for r in eff.ranges] + [_same_self(i.each) for eff in self.effects for i in eff.loops])
+
+
+def _isinstance_overloads(tree: Tree, cls, want: set) -> tuple:
+    """(method, {type: TypedRun}, fallback raises?) for an ``assign`` that dispatches by an isinstance chain."""
+    m = cls.methods.get("assign")
+    if m is None or len(m.params) < 3:
+        raise AnalysisError("vanished anchor: DynamicsSelector.assign(self, selection, builder)")
+    run = MethodRun(tree, m)
+    sel = ("param", m.params[1])
+    tests = {tuple(names) for ev in run.sx.events for t, _ in _norm(ev[1]) for names in [_isinstance_types(t, sel)] if names}
+    tests |= {tuple(names) for e in run.effects for t, _ in e.pc for names in [_isinstance_types(t, sel)] if names}
+    tests |= {tuple(names) for pc, _, _ in run.delegations for t, _ in pc for names in [_isinstance_types(t, sel)] if names}
+    if not tests:
+        raise AnalysisError("vanished anchor: DynamicsSelector.assign is neither a singledispatchmethod nor an isinstance chain over its selection")
+    typed = {}
+    for t in sorted({n for names in tests for n in names}):
+        view = TypedRun(run, sel, t)
+        raised = any(ev[0] == "raise" and view.strip(_norm(ev[1])) is not None for ev in run.sx.events)
+        if (view.effects or view.delegations) and not raised:
+            typed[t] = view
+    other = TypedRun(run, sel, None)  # a selection of none of the tested types
+    fallback = any(ev[0] == "raise" and other.strip(_norm(ev[1])) == () for ev in run.sx.events) and not other.effects and not other.delegations
+    return m, typed, fallback
+
+
+def _store_name(tree: Tree, cls) -> str:
+    """The mapping attribute that ``__getitem__`` reads (the store of the selector)."""
+    getitem = cls.methods.get("__getitem__")
+    if getitem is None:
+        raise AnalysisError("vanished anchor: DynamicsSelector.__getitem__")
+    run = MethodRun(tree, getitem)
+    names = {_self_attr(v[1]) for _, v in alternatives(run.ret) if v[0] == "sub" and _self_attr(v[1])}
+    if len(names) != 1:
+        raise AnalysisError(f"DynamicsSelector.__getitem__ does not read one mapping attribute of self (found {sorted(n for n in names if n)})")
+    return next(iter(names))
+
+
+def _problem_or_undecided(value, known, message: str, problems: list) -> None:
+    why = not_followed(value, known)
+    if why:
+        raise AnalysisError(f"{message}: cannot decide ({why})")
+    problems.append(message)
 
 
 def check_dispatch(ctx: Check, tree: Tree) -> None:
-    cls = tree.cls(f"{HEL}::DynamicsSelector")
-    impls: dict[str, ast.FunctionDef] = {}
-    base = None
-    for st in cls.node.body:
-        if isinstance(st, ast.FunctionDef):
-            for dec in st.decorator_list:
-                if isinstance(dec, ast.Call) and unparse(dec.func) == "assign.register" and dec.args:
-                    impls[unparse(dec.args[0])] = st
-                if unparse(dec) == "singledispatchmethod" and st.name == "assign":
-                    base = st
-    if base is None:
-        raise AnalysisError("vanished anchor: DynamicsSelector.assign is not a singledispatchmethod")
+    cls = tree.cls(SELECTOR)
+    base, impls = selector_overloads(tree, cls)
     want = {"TwoBodyDecay", "tuple", "str", "Particle"}
-    ctx.verdict(set(impls) == want, "R-DISPATCH", f"{cls.qual}.assign::registry", tree.loc(base), f"assign() is registered for {sorted(impls)}", None if set(impls) == want else f"expected {sorted(want)}")
-    base_raises = any(isinstance(n, ast.Raise) for n in ast.walk(base))
-    ctx.verdict(base_raises, "R-DISPATCH", f"{cls.qual}.assign::fallback-raises", tree.loc(base), "unsupported selection types raise instead of being ignored")
-    # every implementation reaches the store self.__choices[<decay>] = builder (directly or by delegating)
-    stores_direct = {}
+    if base is None:
+        # no singledispatch: one method that tells the selection types apart with isinstance - read per type
+        method, runs, fallback = _isinstance_overloads(tree, cls, want)
+        base = method.node
+        impls = {t: method for t in runs}
+        fallback_imprecise = method and not fallback and runs and next(iter(runs.values())).sx.imprecise
+    else:
+        base_run = MethodRun(tree, tree.func_of(base))
+        fallback, fallback_imprecise = base_run.raises, base_run.sx.imprecise
+        runs = {t: MethodRun(tree, fn) for t, fn in impls.items()}
+    missing = sorted(want - set(impls))
+    ctx.verdict(not missing, "R-DISPATCH", f"{cls.qual}.assign::registry", tree.loc(base), f"assign() is registered for {sorted(impls)}", None if not missing else f"not registered: {missing}")
+    if not fallback and fallback_imprecise:
+        raise AnalysisError(f"DynamicsSelector.assign (fallback): {fallback_imprecise[0]}")
+    ctx.verdict(fallback, "R-DISPATCH", f"{cls.qual}.assign::fallback-raises", tree.loc(base), "unsupported selection types raise instead of being ignored")
+    store = _store_name(tree, cls)
     for t, fn in impls.items():
-        stores = [n for n in ast.walk(fn) if isinstance(n, ast.Assign) and isinstance(n.targets[0], ast.Subscript) and "__choices" in unparse(n.targets[0].value)]
-        delegates = [n for n in ast.walk(fn) if isinstance(n, ast.Call) and unparse(n.func) == "self.assign"]
-        stores_direct[t] = (stores, delegates)
-        builder_param = fn.args.args[2].arg if len(fn.args.args) > 2 else None
-        problems = []
-        if not stores and not delegates:
+        run = runs[t]
+        params = fn.params
+        if len(params) < 3:
+            raise AnalysisError(f"assign[{t}] does not have the parameters (self, selection, builder)")
+        sel, builder = ("param", params[1]), ("param", params[2])
+        effects = [e for e in run.effects if e.store == store]
+        problems: list[str] = []
+        unread = [m for a, m in run.mutations if a == store]
+        if unread:
+            raise AnalysisError(f"assign[{t}] modifies the store in a way the rule cannot read: {unread[0]}")
+        if not effects and not run.delegations:
+            if run.sx.imprecise:
+                raise AnalysisError(f"assign[{t}]: {run.sx.imprecise[0]}")
             problems.append("neither stores into the choices nor delegates to another implementation")
-        for s in stores:
-            if unparse(s.value) != builder_param:
-                problems.append(f"stores `{unparse(s.value)}` instead of the given builder")
-        for d in delegates:
-            if len(d.args) != 2 or unparse(d.args[1]) != builder_param:
-                problems.append(f"delegation `{unparse(d)}` does not pass the builder on")
+        for e in effects:
+            if e.value != builder:
+                _problem_or_undecided(e.value, SEL_KNOWN, f"stores `{show(e.value)[:60]}` instead of the given builder", problems)
+        for pc, loops, d in run.delegations:
+            args = d[2]
+            if len(args) != 2 or args[1] != builder:
+                _problem_or_undecided(d, SEL_KNOWN, f"delegation `{show(d)[:80]}` does not pass the builder on", problems)
         if t == "TwoBodyDecay":
             # "one specific decay": exactly the given key is written - no search over the registered keys
-            sel_param = fn.args.args[1].arg if len(fn.args.args) > 1 else None
-            if len(stores) != 1 or unparse(stores[0].targets[0].slice) != sel_param:
-                problems.append(f"does not store under exactly the given decay `{sel_param}` ({[unparse(s_.targets[0]) for s_ in stores]})")
-            if any(isinstance(n, (ast.For, ast.While, ast.ListComp, ast.SetComp, ast.GeneratorExp, ast.DictComp)) for n in ast.walk(fn)):
-                problems.append("searches the registered decays: a selection of ONE decay can then change several nodes (e.g. all helicity combinations of the node)")
-        ctx.verdict(not problems, "R-DISPATCH", f"{cls.qual}.assign[{t}]::reaches-store", tree.loc(fn), f"assign[{t}] ends in the single store of the given builder ({'direct' if stores else 'delegating'})", problems or None)
-    # by name: compares the parent particle's name, iterates all keys, stores under the iterated key
-    fn = impls.get("str")
-    if fn is not None:
-        problems = _selection_by_name(fn)
-        ctx.verdict(not problems, "R-DISPATCH", f"{cls.qual}.assign[str]::by-parent-name", tree.loc(fn), "assign[str]: every decay whose parent particle has that name gets the builder", problems or None)
-    fn = impls.get("Particle")
-    if fn is not None:
-        d = [n for n in ast.walk(fn) if isinstance(n, ast.Call) and unparse(n.func) == "self.assign"]
-        ok = len(d) == 1 and unparse(d[0].args[0]).endswith(".name")
-        ctx.verdict(ok, "R-DISPATCH", f"{cls.qual}.assign[Particle]::by-name", tree.loc(fn), "assign[Particle] selects by the particle's name")
-    fn = impls.get("tuple")
-    if fn is not None:
-        ok = "TwoBodyDecay.create(" in unparse(fn)
-        ctx.verdict(ok, "R-DISPATCH", f"{cls.qual}.assign[tuple]::creates-decay", tree.loc(fn), "assign[(transition, node)] converts to the TwoBodyDecay of exactly that node")
+            exact = [e for e in effects if e.key == sel and not e.ranges and not e.pc]
+            if len(effects) != 1 or len(exact) != 1:
+                if run.delegations and not effects:
+                    raise AnalysisError("assign[TwoBodyDecay] delegates instead of storing: not read")
+                for e in effects:
+                    if e.ranges:
+                        problems.append(f"searches the registered decays (`{e.text}` for every element of `{show(e.ranges[0][1])[:50]}`): a selection of ONE decay can then change several nodes (e.g. all helicity combinations of the node)")
+                    elif e.key != sel:
+                        _problem_or_undecided(e.key, SEL_KNOWN, f"does not store under exactly the given decay `{params[1]}` but under `{show(e.key)[:60]}`", problems)
+                    elif e.pc:
+                        problems.append(f"stores the builder only when `{show_pc(e.pc)[:80]}`")
+                if not problems:
+                    problems.append(f"does not store under exactly the given decay `{params[1]}` ({[e.text for e in effects]})")
+        ctx.verdict(not problems, "R-DISPATCH", f"{cls.qual}.assign[{t}]::reaches-store", tree.loc(fn.node),
+                    f"assign[{t}] ends in the single store of the given builder ({'direct' if effects else 'delegating'})", sorted(set(problems)) or None)
+    # by name: every registered decay whose parent particle has that name gets the builder - and no other
+    if "str" in impls:
+        fn, run = impls["str"], runs["str"]
+        problems = _selection_by_name(run, store, ("param", fn.params[1]))
+        ctx.verdict(not problems, "R-DISPATCH", f"{cls.qual}.assign[str]::by-parent-name", tree.loc(fn.node), "assign[str]: every decay whose parent particle has that name gets the builder", problems or None)
+    if "Particle" in impls:
+        fn, run = impls["Particle"], runs["Particle"]
+        sel = ("param", fn.params[1])
+        by_name = [d for _, _, d in run.delegations if d[2] and d[2][0] == ("attr", sel, "name")]
+        ok = len(by_name) == 1 and len(run.delegations) == 1 and not run.delegations[0][0]
+        if not ok:
+            direct = _selection_by_name(run, store, ("attr", sel, "name")) if [e for e in run.effects if e.store == store] else None
+            if direct == []:
+                ok = True
+            elif run.delegations and not_followed(("tuple", tuple(d for _, _, d in run.delegations)), SEL_KNOWN):
+                raise AnalysisError("assign[Particle]: the delegation is not read")
+        ctx.verdict(ok, "R-DISPATCH", f"{cls.qual}.assign[Particle]::by-name", tree.loc(fn.node), "assign[Particle] selects by the particle's name",
+                    None if ok else [show(d)[:80] for _, _, d in run.delegations])
+    if "tuple" in impls:
+        fn, run = impls["tuple"], runs["tuple"]
+        sel = ("param", fn.params[1])
+
+        def is_decay_of(v) -> bool:
+            if v[0] != "call":
+                return False
+            name = func_name(v)
+            if name.endswith("TwoBodyDecay.create") and v[2] == (sel,):
+                return True
+            return name.endswith("from_transition") and (v[2] == (("star", sel),) or v[2] == (("item", sel, 0), ("item", sel, 1)) or v[2] == (("sub", sel, ("const", 0)), ("sub", sel, ("const", 1))))
+
+        targets = [d[2][0] for _, _, d in run.delegations if d[2]] + [e.key for e in run.effects if e.store == store]
+        ok = bool(targets) and all(is_decay_of(x) for x in targets)
+        if not ok and (not targets or any(not_followed(x, SEL_KNOWN) for x in targets)):
+            raise AnalysisError("assign[tuple]: the selection that is stored / delegated is not read")
+        ctx.verdict(ok, "R-DISPATCH", f"{cls.qual}.assign[tuple]::creates-decay", tree.loc(fn.node), "assign[(transition, node)] converts to the TwoBodyDecay of exactly that node",
+                    None if ok else [show(x)[:80] for x in targets])
     # __init__ registers every node of every transition with the neutral builder
-    init = cls.methods["__init__"]
-    ird = RD(init.node)
-    ok = False
-    why = []
-    for st in [n for n in walk_function(init.node) if isinstance(n, ast.Assign) and isinstance(n.targets[0], ast.Subscript) and unparse(n.value) == "create_non_dynamic"]:
-        key = st.targets[0].slice
-        kdefs = [d for d in ird.reaching(key)] if isinstance(key, ast.Name) else []
-        calls = [d.value for d in kdefs if isinstance(d.value, ast.Call) and unparse(d.value.func) == "TwoBodyDecay.from_transition" and len(d.value.args) == 2]
-        if len(calls) != 1 or len(kdefs) != 1:
-            why.append("key is not TwoBodyDecay.from_transition(transition, node)")
+    init = cls.methods.get("__init__")
+    if init is None:
+        raise AnalysisError("vanished anchor: DynamicsSelector.__init__")
+    run = MethodRun(tree, init)
+    why = _registers_all_nodes(run, store, init)
+    ctx.verdict(not why, "R-DISPATCH", f"{cls.qual}.__init__::all-nodes", tree.loc(init.node), "every node of every (also permuted) transition starts with create_non_dynamic", why or None)
+
+
+def _registrations(run: MethodRun, store: str) -> list:
+    """The writes of ``__init__`` that register ``create_non_dynamic`` under a decay key."""
+    unread = [m for a, m in run.mutations if a == store]
+    if unread:
+        raise AnalysisError(f"DynamicsSelector.__init__ fills the store in a way the rule cannot read: {unread[0]}")
+    return [e for e in run.effects if e.store == store and e.value[0] == "global" and e.value[1].endswith("create_non_dynamic")]
+
+
+def _registers_all_nodes(run: MethodRun, store: str, init) -> list[str]:
+    regs = _registrations(run, store)
+    if not regs:
+        if run.sx.imprecise or [e for e in run.effects if e.store == store]:
+            raise AnalysisError("DynamicsSelector.__init__: no registration of create_non_dynamic under a decay key was read")
+        return ["no decay is registered with create_non_dynamic"]
+    source = ("param", init.params[1]) if len(init.params) > 1 else None
+    why: list[str] = []
+    good = 0
+    for e in regs:
+        here: list[str] = []
+        key = e.key
+        if not (key[0] == "call" and func_name(key).endswith("from_transition") and len(key[2]) == 2 and not key[3]):
+            w = not_followed(key, SEL_KNOWN)
+            if w:
+                raise AnalysisError(f"DynamicsSelector.__init__: the registered key is not read ({w})")
+            here.append(f"key `{show(key)[:60]}` is not TwoBodyDecay.from_transition(transition, node)")
+            why += here
             continue
-        t_arg, n_arg = calls[0].args
-        loops = [a for a in ancestors(st) if isinstance(a, ast.For)]
-        node_loop = next((l for l in loops if isinstance(l.target, ast.Name) and isinstance(n_arg, ast.Name) and l.target.id == n_arg.id), None)
-        if node_loop is None or unparse(node_loop.iter) != f"{unparse(t_arg)}.topology.nodes":
-            why.append("the node does not range over all nodes of that transition's topology")
-            continue
-        tdeps = ird.closure(ird.uses(t_arg))
-        from_param = any(d.kind == "param" and d.name == init.params[1] for d in tdeps) if len(init.params) > 1 else False
-        jumps = any(isinstance(n, (ast.Continue, ast.Break)) for l in loops for n in ast.walk(l))
-        guarded = any(isinstance(a, ast.If) for a in ancestors(st) if a is not init.node and not isinstance(a, (ast.For, ast.FunctionDef, ast.ClassDef, ast.Module)))
-        if from_param and not jumps and not guarded:
-            ok = True
+        t_arg, n_arg = key[2]
+        node_range = next((r for r in e.ranges if r == n_arg), None)
+        if node_range is None:
+            here.append(f"the node `{show(n_arg)[:40]}` does not range over the nodes of the transition")
         else:
-            why.append("registration is conditional / leaves loops early / does not derive from the constructor argument")
-    ctx.verdict(ok, "R-DISPATCH", f"{cls.qual}.__init__::all-nodes", tree.loc(init.node), "every node of every (also permuted) transition starts with create_non_dynamic", None if ok else why)
+            base = node_range[1]
+            while (base[0] == "call" and base[1][0] == "builtin" and base[1][1] in {"list", "tuple", "sorted", "iter", "reversed"} and base[2]) or (base[0] == "sub" and base[2][0] == "slice"):
+                base = base[2][0] if base[0] == "call" else base[1]
+            if base != ("attr", ("attr", t_arg, "topology"), "nodes"):
+                w = not_followed(base, SEL_KNOWN)
+                if w:
+                    raise AnalysisError(f"DynamicsSelector.__init__: the range of the node is not read ({w})")
+                here.append(f"the node ranges over `{show(base)[:60]}`, not over all nodes of that transition's topology")
+        for r in e.ranges:
+            ok, w = whole_collection(r[1])
+            if ok is False:
+                here.append(f"the registration does not run for every element: {w}")
+            elif ok is None:
+                raise AnalysisError(f"DynamicsSelector.__init__: cannot decide whether the registration runs over a whole collection: {w}")
+        if e.pc:
+            here.append(f"the registration is conditional (`{show_pc(e.pc)[:80]}`)")
+        if source is not None and not contains(t_arg, source):
+            here.append("the registered transition does not derive from the constructor argument")
+        early = [x for x in run.leaves_loops_early()]
+        if early:
+            here.append(f"the registration loop is left early ({early[0]})")
+        for info in e.loops:
+            if any(isinstance(n, ast.Continue) for n in ast.walk(info.node)) and not e.pc:
+                raise AnalysisError("DynamicsSelector.__init__: `continue` inside the registration loop is not read")
+        if not here:
+            good += 1
+        why += here
+    return [] if good and not why else sorted(set(why)) or ["no complete registration"]
+
+
+def _selection_by_name(run: MethodRun, store: str, name_value) -> list[str]:
+    """assign[str]: the decays that get the builder are exactly {d in store : d.parent.particle.name == <name>}:
+    one write, for every registered decay d, under the key d, on exactly that condition."""
+    effects = [e for e in run.effects if e.store == store]
+    if len(effects) != 1:
+        if run.sx.imprecise:
+            raise AnalysisError(f"assign[str]: {run.sx.imprecise[0]}")
+        return [f"{len(effects)} stores into the choices (one expected)"]
+    e = effects[0]
+    problems: list[str] = []
+    decays = [r for r in e.ranges if _view_of(r[1]) == store or _view_of(_strip_partial(r[1])) == store]
+    if len(decays) != 1 or len(e.ranges) != 1:
+        if not e.ranges:
+            return ["does not iterate all registered decays"]
+        other = [r for r in e.ranges if r not in decays]
+        w = not_followed(("tuple", tuple(r[1] for r in other)), SEL_KNOWN) if other else None
+        if w or len(decays) > 1:
+            raise AnalysisError(f"assign[str]: the range of the selection is not read ({w or 'several ranges over the store'})")
+        if not decays:
+            return ["does not iterate all registered decays"]
+        problems.append("the store sits in a nested loop")
+    d = decays[0]
+    ok, w = whole_collection(d[1])
+    if ok is False:
+        problems.append(f"does not iterate all registered decays: {w}")
+    elif ok is None:
+        raise AnalysisError(f"assign[str]: cannot decide whether all registered decays are visited: {w}")
+    if e.key != d:
+        if contains(e.key, d) or not_followed(e.key, SEL_KNOWN) is None:
+            problems.append("stores under a key other than the iterated decay")
+        else:
+            raise AnalysisError("assign[str]: the key of the store is not read")
+    early = run.leaves_loops_early()
+    if early:
+        problems.append(f"stops at the first match (other chains with the same resonance keep their old builder): {early[0]}")
+    want = ("attr", ("attr", ("attr", d, "parent"), "particle"), "name")
+    n_name = 0
+    if not e.pc:
+        problems.append("no name comparison")
+    for t, outcome in e.pc:
+        atoms = [(t, outcome)]
+        if t[0] == "and" and outcome:
+            atoms = [normal_test(x) for x in t[1]]
+        for a, o in atoms:
+            sides = (a[2], a[3]) if a[0] == "cmp" and a[1] == "==" else None
+            if sides and set(sides) == {want, name_value}:
+                if o:
+                    n_name += 1
+                else:
+                    problems.append(f"condition `{show(a)[:80]}` must NOT hold: the decays with another parent are selected")
+                continue
+            w = not_followed(a, SEL_KNOWN)
+            if w:
+                raise AnalysisError(f"assign[str]: a condition of the selection is not read ({w})")
+            if any(x[0] == "attr" and x[2] == "children" and contains(x, d) for x in subterms(a)):
+                problems.append("selection looks at the children")
+            problems.append(f"condition `{show(a)[:80]}` ({'must hold' if o else 'must not hold'}): selection is not by the parent particle's name alone")
+    if e.pc and not n_name and not any("selection is not by" in p or "must NOT hold" in p for p in problems):
+        problems.append("no name comparison")
+    return sorted(set(problems))
+
+
+def _strip_partial(v):
+    while isinstance(v, tuple) and v and v[0] == "sub" and isinstance(v[2], tuple) and v[2] and v[2][0] == "slice":
+        v = v[1]
+    return v
+
+
+def normal_test(t):
+    from ..symex import normal
+
+    return normal(t)
 
 
 def check_same_decay(ctx: Check, tree: Tree) -> None:
-    from ..paths import PathWalker
-
     fn = tree.func(f"{HEL}::HelicityAmplitudeBuilder.__formulate_dynamics")
-    inl = Inliner(fn.node)
-    frd = RD(fn.node)
-    # the builder call: a call of a local that was looked up in self.dynamics[...]
-    calls = []
-    for c in walk_function(fn.node):
-        if isinstance(c, ast.Call) and isinstance(c.func, ast.Name):
-            defs = frd.reaching(c.func)
-            if defs and all(d.value is not None and unparse(d.value).startswith("self.dynamics[") for d in defs):
-                calls.append(c)
-    if len(calls) != 1:
-        raise AnalysisError("__formulate_dynamics: expected one call of the builder looked up in self.dynamics[...]")
-    c = calls[0]
-    # positional arguments, looking through a starred local tuple
-    pos = []
-    for a in c.args:
-        if isinstance(a, ast.Starred):
-            v = inl.expr(a.value)
-            if isinstance(v, ast.Tuple):
-                pos.extend(v.elts)
-            else:
-                raise AnalysisError(f"__formulate_dynamics: builder called with *{unparse(a.value)} which is not a local tuple")
+    if len(fn.params) < 3:
+        raise AnalysisError("__formulate_dynamics does not have the parameters (self, transition, node_id)")
+    run = MethodRun(tree, fn)
+    t_par, n_par = ("param", fn.params[1]), ("param", fn.params[2])
+    key = fn.qual
+
+    def is_decay(v) -> bool:
+        """The TwoBodyDecay of (transition, node_id) - or the pair itself, which the selector converts."""
+        if v == ("tuple", (t_par, n_par)):
+            return True
+        if v[0] == "call" and func_name(v).endswith("from_transition") and v[2] == (t_par, n_par) and not v[3]:
+            return True
+        return v[0] == "call" and func_name(v).endswith("TwoBodyDecay.create") and v[2] == (("tuple", (t_par, n_par)),)
+
+    def is_selector(v) -> bool:
+        return isinstance(v, tuple) and len(v) == 3 and v[0] == "attr" and v[1] == SELF and "dynamics" in v[2]
+
+    def lookup_key(v):
+        """The key if ``v`` is the builder looked up in the selector (``self.dynamics[k]`` / ``.get(k[, default])``)."""
+        if v[0] == "sub" and is_selector(v[1]):
+            return v[2]
+        if v[0] == "call" and v[1][0] == "attr" and v[1][2] == "get" and is_selector(v[1][1]) and 1 <= len(v[2]) <= 2:
+            return v[2][0]
+        return None
+
+    def builder_call(v):
+        """The call ``<builder from the selector>(...)`` whose first element ``v`` is."""
+        c = None
+        if v[0] == "item" and v[2] == 0:
+            c = v[1]
+        elif v[0] == "sub" and v[2] == ("const", 0):
+            c = v[1]
+        if c is not None and c[0] == "call" and lookup_key(c[1]) is not None:
+            return c
+        return None
+
+    def feasible(v):
+        """The phi-free cases of a value, without those that call None (a builder that was not found)."""
+        return [(p, x) for p, x in cases(v) if not any(y[0] == "call" and y[1] == ("const", None) for y in subterms(x))]
+
+    alts = [(pc + p, x) for pc, v in alternatives(run.ret) for p, x in feasible(v)]
+    calls, neutral, memo, other = [], [], [], []
+    for pc, v in alts:
+        if as_number(v) == 1:
+            neutral.append((pc, v))
+        elif builder_call(v) is not None:
+            calls.append((pc, builder_call(v)))
+        elif v[0] in {"item", "sub"} and v[1][0] == "sub" and _self_mapping_path(v[1][1]) and (v[2] == 0 or v[2] == ("const", 0)):
+            memo.append((pc, v[1]))
+        elif v[0] == "sub" and _self_mapping_path(v[1]):
+            memo.append((pc, v))
         else:
-            pos.append(inl.expr(a))
-    if len(pos) < 2:
-        raise AnalysisError("__formulate_dynamics: builder call has fewer than two positional arguments")
-    a0 = unparse(inl.expr(pos[0])).replace(" ", "")
-    a1 = unparse(inl.expr(pos[1])).replace(" ", "")
-    decay = "TwoBodyDecay.from_transition(transition,node_id)"
-    b = next(iter(frd.reaching(c.func)))
-    lookup = unparse(inl.expr(b.value)).replace(" ", "")
-    # must-pass-through: every path that returns a lineshape executes the call of THIS node's builder,
-    # unless the value comes out of a memo whose key derives from the builder or the decay
-    walker = PathWalker(tree)
-    skipped = []
-    for path in walker.paths(fn):
-        if path.exit != "return" or path.exit_node is None or unparse(path.exit_node.value) == "sp.S.One":
-            continue
-        executed = any(ev[0] == "stmt" and any(n is c for n in ast.walk(ev[1])) for ev in path.events)
-        if executed:
-            continue
-        # memo lookups on this path
-        keyed_ok = False
-        ret_defs = {d.node for d in frd.closure(frd.uses(path.exit_node.value))}
-        for ev in path.events:
-            if ev[0] == "stmt" and isinstance(ev[1], ast.Assign) and isinstance(ev[1].value, ast.Subscript) and ev[1] in ret_defs and ev[1] is not b.node:
-                key_expr = inl.expr(ev[1].value.slice)
-                elements = key_expr.elts if isinstance(key_expr, ast.Tuple) else [key_expr]
-                lookup_key = unparse(inl.expr(b.value.slice)) if isinstance(b.value, ast.Subscript) else None
-                for el in elements:
-                    # the builder object itself, or the very decay the builder was looked up with
-                    if isinstance(el, ast.Name) and b in frd.reaching(ev[1].value.slice if isinstance(ev[1].value.slice, ast.Name) else el):
-                        keyed_ok = True
-                    if unparse(el) in {lookup_key, unparse(b.value)}:
-                        keyed_ok = True
-        if not keyed_ok:
-            skipped.append(path)
-    # the neutral result 1 is only returned for a decay the selector does not know
-    for r in [r for r in walk_function(fn.node, nested=False) if isinstance(r, ast.Return) and r.value is not None and unparse(r.value) in {"sp.S.One", "1", "sp.Integer(1)"}]:
-        guards = [a for a in ancestors(r) if isinstance(a, ast.If)]
-        ok_g = any(isinstance(g.test, ast.Compare) and len(g.test.ops) == 1 and isinstance(g.test.ops[0], ast.NotIn) and "dynamics" in unparse(g.test.comparators[0])
-                   and any(r is n for b_ in g.body for n in ast.walk(b_)) for g in guards)
-        ctx.verdict(ok_g, "R-SAMEDECAY", f"{fn.qual}::neutral-only-for-unknown-decay", tree.loc(r),
+            other.append((pc, v))
+    # every builder call anywhere in the function (also those that only fill a memo)
+    all_calls = [c for c in {x for src in [run.ret, *[e.value for e in run.effects]] for _, val in feasible(src) for x in subterms(val) if x[0] == "call" and lookup_key(x[1]) is not None}]
+    if not all_calls:
+        w = not_followed(run.ret, SEL_KNOWN) or (run.sx.imprecise[0] if run.sx.imprecise else None)
+        raise AnalysisError("__formulate_dynamics: expected one call of the builder looked up in self.dynamics[...]" + (f" ({w})" if w else ""))
+    # ---- the neutral result 1 is only returned for a decay the selector does not know
+    lookups = {lookup_key(c[1]) for c in all_calls}
+    for pc, v in neutral:
+        ok_g = _unknown_decay_guard(pc, is_decay, is_selector, fn)
+        if not ok_g:
+            w = not_followed(("tuple", tuple(t for t, _ in pc)), SEL_KNOWN)
+            if w:
+                raise AnalysisError(f"__formulate_dynamics: the condition of `return 1` is not read ({w})")
+        ctx.verdict(ok_g, "R-SAMEDECAY", f"{key}::neutral-only-for-unknown-decay", tree.loc(fn.node),
                     "`return 1` (no dynamics) is only reached when the decay is not a key of the selector",
-                    None if ok_g else {"guards": [unparse(g.test) for g in guards]})
-    ctx.verdict(not skipped, "R-SAMEDECAY", f"{fn.qual}::builder-called-on-every-path", tree.loc(c),
+                    None if ok_g else {"guards": show_pc(pc)[:200]})
+    # ---- must-pass-through: every path that returns a lineshape executes the call of THIS node's builder,
+    # unless the value comes out of a memo whose key determines the call and that is part of the per-call scratch state
+    skipped = []
+    for pc, entry in memo:
+        mapping, mkey = entry[1], entry[2]
+        elements = list(mkey[1]) if mkey[0] == "tuple" else [mkey]
+        filled = [e for e in run.effects if e.mapping == mapping]
+        fills = [e for e in filled if e.key == mkey and (e.value in all_calls or builder_call(e.value) is not None or (e.value[0] == "item" and e.value[1] in all_calls))]
+        if not fills:
+            w = not_followed(entry, SEL_KNOWN)
+            if w or filled:
+                raise AnalysisError(f"__formulate_dynamics: the memo `{show(mapping)[:50]}` is filled in a way the rule cannot read")
+            skipped.append(f"`{show(entry)[:80]}` is returned without calling the builder")
+            continue
+        call = fills[0].value if fills[0].value in all_calls else (builder_call(fills[0].value) or fills[0].value[1])
+        by_decay = any(is_decay(x) for x in elements)
+        by_call = call[1] in elements and all(a in elements for a in call[2])
+        if not (by_decay or by_call):
+            skipped.append(f"the memo key `{show(mkey)[:100]}` does not determine the call `{show(call)[:80]}`: a lineshape formulated for another decay / by another builder is reused")
+        elif not _reset_clears(tree, mapping[2]):
+            skipped.append(f"the memo `{show(mapping)[:50]}` is not re-initialised by reset(): lineshapes of an earlier formulate() call are reused")
+    for pc, v in other:
+        w = not_followed(v, SEL_KNOWN)
+        if w:
+            raise AnalysisError(f"__formulate_dynamics: a returned value is not read ({w})")
+    ctx.verdict(not skipped, "R-SAMEDECAY", f"{key}::builder-called-on-every-path", tree.loc(fn.node),
                 "every path of __formulate_dynamics that returns a lineshape calls the builder assigned to THIS decay (or reads a memo keyed by that builder / decay)",
-                None if not skipped else f"{len(skipped)} path(s) return an expression without calling `{unparse(c.func)}`: a lineshape formulated for another decay / by another builder is reused")
+                skipped or None)
+    # ---- builder = dynamics[decay(transition, node)], called with that decay's parent particle and the variable set of the same node
     problems = []
-    if a0 != f"{decay}.parent.particle":
-        problems.append(f"resonance argument is {a0}")
-    if a1 != "_generate_kinematic_variable_set(transition,node_id)":
-        problems.append(f"variable set is {a1}")
-    if lookup != f"self.dynamics[{decay}]":
-        problems.append(f"builder looked up with {lookup}")
-    ctx.verdict(not problems, "R-SAMEDECAY", f"{fn.qual}::same-node", tree.loc(c),
-                "__formulate_dynamics: builder = dynamics[decay(transition, node)], called with that decay's parent particle and the variable set of the same (transition, node)", problems or None)
-    rets = [r for r in walk_function(fn.node) if isinstance(r, ast.Return)]
-    kinds = set()
-    for r in rets:
-        if unparse(r.value) == "sp.S.One":
-            kinds.add("one")
-        elif isinstance(r.value, ast.Name) and any(d.index == 0 and d.value is c for d in frd.reaching(r.value)):
-            kinds.add("expression")
-        else:
-            kinds.add(unparse(r.value))
-    ok = kinds == {"one", "expression"}
-    rets = sorted(kinds)
-    ctx.verdict(ok, "R-SAMEDECAY", f"{fn.qual}::returns", tree.loc(fn.node), "returns the builder's expression (or 1 for an unknown decay)", None if ok else rets)
+    for c in all_calls:
+        k = lookup_key(c[1])
+        if not is_decay(k):
+            _problem_or_undecided(k, SEL_KNOWN, f"builder looked up with {show(k)[:80]}", problems)
+        args = list(c[2])
+        kw = dict(c[3])
+        if len(args) + len(kw) != 2 or any(a[0] == "star" for a in args):
+            spread = args[0][1] if len(args) == 1 and args[0][0] == "star" and args[0][1][0] == "tuple" and len(args[0][1][1]) == 2 else None
+            if spread is None:
+                raise AnalysisError(f"__formulate_dynamics: builder call `{show(c)[:80]}` does not pass (resonance, variable set) in a form the rule reads")
+            args = list(spread[1])
+        names = iter([n for n in ("resonance", "variable_pool") if n in kw])
+        res = args[0] if args else kw.get("resonance")
+        var = args[1] if len(args) > 1 else kw.get("variable_pool")
+        if res is None or var is None:
+            raise AnalysisError(f"__formulate_dynamics: builder call `{show(c)[:80]}`: arguments are not read")
+        if not (res[0] == "attr" and res[2] == "particle" and res[1][0] == "attr" and res[1][2] == "parent" and is_decay(res[1][1]) and res[1][1][0] == "call"):
+            _problem_or_undecided(res, SEL_KNOWN, f"resonance argument is {show(res)[:80]}", problems)
+        if not (var[0] == "call" and func_name(var).endswith("_generate_kinematic_variable_set") and var[2] == (t_par, n_par) and not var[3]):
+            _problem_or_undecided(var, SEL_KNOWN, f"variable set is {show(var)[:80]}", problems)
+    ctx.verdict(not problems, "R-SAMEDECAY", f"{key}::same-node", tree.loc(fn.node),
+                "__formulate_dynamics: builder = dynamics[decay(transition, node)], called with that decay's parent particle and the variable set of the same (transition, node)", sorted(set(problems)) or None)
+    kinds = []
+    for pc, v in other:
+        kinds.append(show(v)[:80])
+    if not neutral and not calls and not memo:
+        kinds.append("no path returns the builder's expression")
+    ok = not kinds and bool(calls or memo)
+    ctx.verdict(ok, "R-SAMEDECAY", f"{key}::returns", tree.loc(fn.node), "returns the builder's expression (or 1 for an unknown decay)", None if ok else kinds)
     # the expression multiplies the Wigner-D of the same node
     pd = tree.func(f"{HEL}::HelicityAmplitudeBuilder._formulate_partial_decay")
-    t = unparse(pd.node)
-    ok = "formulate_isobar_wigner_d(transition, node_id)" in t and "self.__formulate_dynamics(transition, node_id)" in t
-    ctx.verdict(ok, "R-SAMEDECAY", f"{pd.qual}::same-node", tree.loc(pd.node), "the dynamics of (transition, node) multiply the Wigner-D of the same (transition, node)")
+    prun = MethodRun(tree, pd, atoms=frozenset({"formulate_isobar_wigner_d", "__formulate_dynamics", "__generate_helicity_coupling"}))
+    mine = tuple(("param", p) for p in pd.params[1:3])
+    bad = []
+    for pc, v in alternatives(prun.ret):
+        for name in ("formulate_isobar_wigner_d", "__formulate_dynamics"):
+            hits = calls_of(v, name)
+            if not hits:
+                w = not_followed(v, (*SEL_KNOWN, "formulate_isobar_wigner_d", "__formulate_dynamics", "__generate_helicity_coupling"))
+                if w:
+                    raise AnalysisError(f"_formulate_partial_decay: the returned value is not read ({w})")
+                bad.append(f"`{show(v)[:80]}` does not contain {name}(transition, node_id)")
+            elif any(tuple(h[2][:2]) != mine or h[3] for h in hits):
+                bad.append(f"`{show(hits[0])[:80]}` is not formulated for the (transition, node) of the call")
+    ctx.verdict(not bad, "R-SAMEDECAY", f"{pd.qual}::same-node", tree.loc(pd.node), "the dynamics of (transition, node) multiply the Wigner-D of the same (transition, node)", bad or None)
+
+
+def _self_mapping_path(v) -> bool:
+    """An attribute path on ``self`` (``self.__ingredients.lineshapes``)."""
+    root = v
+    n = 0
+    while isinstance(root, tuple) and len(root) == 3 and root[0] == "attr":
+        root = root[1]
+        n += 1
+    return n >= 1 and root == SELF
+
+
+def _path_name(v) -> str:
+    """``"__choices"`` for ``self.__choices``, ``"__ingredients.lineshapes"`` for the nested path."""
+    parts = []
+    while isinstance(v, tuple) and len(v) == 3 and v[0] == "attr":
+        parts.append(v[2])
+        v = v[1]
+    return ".".join(reversed(parts))
+
+
+def _reset_clears(tree: Tree, attr: str) -> bool:
+    """Is ``self.<attr>`` re-bound by a ``reset`` method of the helicity module (the per-formulate scratch state)?"""
+    for q, f in tree.funcs.items():
+        if q.startswith(f"{HEL}::") and f.name == "reset" and f.cls is not None:
+            for n in ast.walk(f.node):
+                if isinstance(n, (ast.Assign, ast.AnnAssign)):
+                    targets = n.targets if isinstance(n, ast.Assign) else [n.target]
+                    if any(isinstance(t, ast.Attribute) and isinstance(t.value, ast.Name) and t.value.id == "self" and t.attr == attr for t in targets):
+                        return True
+                if isinstance(n, ast.Call) and unparse(n.func) in {"attrs.fields", "fields"}:
+                    return True  # reset() that loops over all declared fields
+    return False
+
+
+def _unknown_decay_guard(pc, is_decay, is_selector, fn) -> bool:
+    """Does the path condition say "the decay of this node is not a key of the selector"?"""
+    for t, o in pc:
+        if t[0] == "cmp" and t[1] == "in" and o is False and is_decay(t[2]):
+            view = t[3]
+            while view[0] == "call" and ((view[1][0] == "attr" and view[1][2] == "keys" and not view[2]) or (view[1][0] == "builtin" and view[1][1] in {"list", "tuple", "set", "frozenset"} and len(view[2]) == 1)):
+                view = view[1][1] if view[1][0] == "attr" else view[2][0]
+            if is_selector(view):
+                return True
+        if t[0] == "raises" and o is True and t[1].split(".")[-1] in {"KeyError", "LookupError"}:
+            # `try: <lookup in the selector> except KeyError:` - the try body must be that lookup alone
+            for tr in [n for n in ast.walk(fn.node) if isinstance(n, ast.Try)]:
+                handled = any(h.type is not None and unparse(h.type).split(".")[-1] in {"KeyError", "LookupError"} for h in tr.handlers)
+                body_calls = [n for st in tr.body for n in ast.walk(st) if isinstance(n, ast.Call)]
+                subs = [n for st in tr.body for n in ast.walk(st) if isinstance(n, ast.Subscript) and isinstance(n.ctx, ast.Load)]
+                if handled and len(tr.body) == 1 and not body_calls and len(subs) == 1 and "dynamics" in unparse(subs[0].value):
+                    return True
+        if t[0] == "cmp" and t[1] == "is" and o is True:
+            for got, sentinel in ((t[2], t[3]), (t[3], t[2])):
+                if got[0] == "phi" and sentinel == ("const", None):
+                    # a helper that returns the builder or None: None exactly on its "unknown decay" paths
+                    none_paths = [p for p, x in alternatives(got) if x == sentinel]
+                    found_paths = [x for p, x in alternatives(got) if x != sentinel]
+                    if none_paths and all(_unknown_decay_guard(p, is_decay, is_selector, fn) for p in none_paths) and all(
+                            (x[0] == "sub" and is_selector(x[1]) and is_decay(x[2])) for x in found_paths):
+                        return True
+                if got[0] == "call" and got[1][0] == "attr" and got[1][2] == "get" and is_selector(got[1][1]) and got[2] and is_decay(got[2][0]):
+                    default = got[2][1] if len(got[2]) == 2 else ("const", None)
+                    if sentinel == default:
+                        return True
+    return False
 
 
 def check_selector_store(ctx: Check, tree: Tree) -> None:
@@ -534,56 +1001,62 @@ def check_selector_store(ctx: Check, tree: Tree) -> None:
     decay (used by __formulate_dynamics) is what the last assign() that denotes that decay wrote,
     and what items()/values() show: every assign overload writes only that store, __getitem__
     reads only that store with its key, the views expose that store."""
-    cls = tree.cls(f"{HEL}::DynamicsSelector")
-    def self_attrs(fn, ctx_type):
-        out = set()
-        for n in walk_function(fn.node):
-            if isinstance(n, ast.Attribute) and isinstance(n.value, ast.Name) and n.value.id == "self" and isinstance(n.ctx, ast.Load):
-                par = getattr(n, "_parent", None)
-                out.add(n.attr)
-        return out
-
-    written: dict[str, set[str]] = {}
-    for name, m in cls.methods.items():
-        for n in walk_function(m.node):
-            tgt = None
-            if isinstance(n, ast.Assign) and isinstance(n.targets[0], ast.Subscript):
-                tgt = n.targets[0].value
-            elif isinstance(n, ast.Call) and isinstance(n.func, ast.Attribute) and n.func.attr in {"update", "setdefault", "pop", "clear", "__setitem__"}:
-                tgt = n.func.value
-            elif isinstance(n, ast.Delete):
-                for t in n.targets:
-                    if isinstance(t, ast.Subscript):
-                        tgt = t.value
-            if isinstance(tgt, ast.Attribute) and isinstance(tgt.value, ast.Name) and tgt.value.id == "self":
-                written.setdefault(tgt.attr, set()).add(name)
-    stores = sorted(written)
+    cls = tree.cls(SELECTOR)
     getitem = cls.methods.get("__getitem__")
-    if getitem is None or not stores:
+    if getitem is None:
         raise AnalysisError("vanished anchor: DynamicsSelector.__getitem__ / its store")
-    key = getitem.params[1] if len(getitem.params) > 1 else None
-    reads = sorted({n.attr for n in walk_function(getitem.node) if isinstance(n, ast.Attribute) and isinstance(n.value, ast.Name) and n.value.id == "self"})
-    rets = [r for r in walk_function(getitem.node) if isinstance(r, ast.Return) and r.value is not None]
-    main = None
-    for r in rets:
-        v = r.value
-        if isinstance(v, ast.Subscript) and isinstance(v.value, ast.Attribute) and isinstance(v.value.value, ast.Name) and v.value.value.id == "self" and unparse(v.slice) == key:
-            main = v.value.attr
+    grun = MethodRun(tree, getitem)
+    key_param = ("param", getitem.params[1]) if len(getitem.params) > 1 else None
     problems = []
-    if main is None:
+    mains = []
+    for pc, v in alternatives(grun.ret):
+        if v[0] == "sub" and _self_attr(v[1]) and (v[2] == key_param or (v[2][0] == "call" and func_name(v[2]).endswith("TwoBodyDecay.create") and v[2][2] == (key_param,))):
+            mains.append(_self_attr(v[1]))
+            continue
+        w = not_followed(v, SEL_KNOWN)
+        if w:
+            raise AnalysisError(f"DynamicsSelector.__getitem__: a returned value is not read ({w})")
+        problems.append(f"__getitem__ also returns `{show(v)[:80]}` (a second source can shadow the store)")
+    if not mains:
+        if grun.sx.imprecise:
+            raise AnalysisError(f"DynamicsSelector.__getitem__: {grun.sx.imprecise[0]}")
         problems.append("__getitem__ does not return self.<store>[key]")
-    if len(rets) != 1:
-        problems.append(f"__getitem__ has {len(rets)} return paths (a second source can shadow the store)")
-    if main is not None and [a for a in reads if a != main]:
-        problems.append(f"__getitem__ also consults {[a for a in reads if a != main]}")
-    if main is not None and [st for st in stores if st != main]:
-        problems.append(f"assign() also writes {[st for st in stores if st != main]} ({sorted(set().union(*[written[st] for st in stores if st != main]))})")
-    for view in ("items", "keys", "values", "__iter__", "__len__"):
-        m = cls.methods.get(view)
-        if m is not None and main is not None:
-            attrs = {n.attr for n in walk_function(m.node) if isinstance(n, ast.Attribute) and isinstance(n.value, ast.Name) and n.value.id == "self"}
-            if attrs != {main}:
-                problems.append(f"{view}() exposes {sorted(attrs)}, not the store `{main}`")
+    if len(set(mains)) > 1:
+        problems.append(f"__getitem__ reads several stores {sorted(set(mains))}")
+    main = mains[0] if mains else None
+    if main is not None:
+        reads = sorted({_self_attr(x) for x in subterms(("tuple", (grun.ret, *[t for e in grun.sx.events for t in [e[1]]]))) if _self_attr(x)} - {main})
+        if reads:
+            problems.append(f"__getitem__ also consults {reads}")
+        written: dict[str, set[str]] = {}
+        for st in cls.node.body:
+            if not isinstance(st, ast.FunctionDef):
+                continue
+            f = tree.func_of(st)
+            r = grun if f is getitem else MethodRun(tree, f)
+            label = st.name if st.name != "_" else f"assign[{', '.join(unparse(a) for d in st.decorator_list if isinstance(d, ast.Call) for a in d.args)}]"
+            for e in r.effects:
+                written.setdefault(e.store, set()).add(label)
+            for a, _ in r.mutations:
+                written.setdefault(a, set()).add(label)
+            if st.name != "__init__":
+                for a, _ in r.rebinds:
+                    written.setdefault(a, set()).add(label)
+        if not written:
+            raise AnalysisError("vanished anchor: DynamicsSelector.__getitem__ / its store")
+        others = sorted(a for a in written if a != main)
+        if others:
+            problems.append(f"assign() also writes {others} ({sorted(set().union(*[written[a] for a in others]))})")
+        for view in ("items", "keys", "values", "__iter__", "__len__"):
+            m = cls.methods.get(view)
+            if m is not None:
+                vr = MethodRun(tree, m)
+                attrs = {_self_attr(x) for x in subterms(vr.ret) if _self_attr(x)}
+                if attrs != {main}:
+                    w = not_followed(vr.ret, SEL_KNOWN)
+                    if w:
+                        raise AnalysisError(f"DynamicsSelector.{view}: the returned value is not read ({w})")
+                    problems.append(f"{view}() exposes {sorted(attrs)}, not the store `{main}`")
     ctx.verdict(not problems, "R-ONESTORE", f"{cls.qual}::single-store", tree.loc(getitem.node),
                 f"DynamicsSelector: assign overloads, __getitem__ and the mapping views all operate on the one store `{main}`", problems or None)
 
@@ -591,28 +1064,37 @@ def check_selector_store(ctx: Check, tree: Tree) -> None:
 def check_key_identity(ctx: Check, tree: Tree) -> None:
     """R-KEYIDENTITY: TwoBodyDecay is the key of the selector; two nodes that differ in parent,
     children or interaction (LS coupling) are different keys: no field is excluded from equality /
-    hash, no hand-written __eq__/__hash__."""
+    hash.  A hand-written __eq__ / __hash__ is not read (ANALYSIS-ERROR, not a violation)."""
     cls = tree.cls("ampform.helicity.decay::TwoBodyDecay")
     problems = []
     decs = [unparse(d) for _, d in cls.decorators] if cls.decorators else []
     for _, d in cls.decorators:
         if isinstance(d, ast.Call):
             for k in d.keywords:
-                if k.arg in {"eq", "hash", "unsafe_hash", "order"} and isinstance(k.value, ast.Constant) and k.value.value is False and k.arg in {"eq", "hash"}:
+                if k.arg is None:
+                    raise AnalysisError(f"TwoBodyDecay: class decorator `{unparse(d)[:60]}` takes **options that are not read")
+                if k.arg in {"eq", "hash"} and isinstance(k.value, ast.Constant) and k.value.value is False:
                     problems.append(f"class decorator `{unparse(d)}` switches {k.arg} off")
+                elif k.arg in {"eq", "hash", "unsafe_hash"} and not isinstance(k.value, ast.Constant):
+                    raise AnalysisError(f"TwoBodyDecay: `{k.arg}={unparse(k.value)}` in the class decorator is not a literal")
     fields = []
     for st in cls.node.body:
         if isinstance(st, ast.AnnAssign) and isinstance(st.target, ast.Name):
             fields.append(st.target.id)
             if isinstance(st.value, ast.Call):
                 for k in st.value.keywords:
-                    if k.arg in {"eq", "hash", "compare"} and isinstance(k.value, ast.Constant) and k.value.value is False:
-                        problems.append(f"field `{st.target.id}` is excluded from {k.arg} ({unparse(st.value)})")
-    for name in ("__eq__", "__hash__"):
-        if name in cls.methods:
-            problems.append(f"hand-written {name}")
+                    if k.arg is None:
+                        raise AnalysisError(f"TwoBodyDecay.{st.target.id}: field options `{unparse(st.value)[:60]}` are not read")
+                    if k.arg in {"eq", "hash", "compare"}:
+                        if isinstance(k.value, ast.Constant) and k.value.value is False:
+                            problems.append(f"field `{st.target.id}` is excluded from {k.arg} ({unparse(st.value)})")
+                        elif not (isinstance(k.value, ast.Constant) and k.value.value in {True, None}):
+                            raise AnalysisError(f"TwoBodyDecay.{st.target.id}: `{k.arg}={unparse(k.value)[:40]}` is not a literal (a key function is not read)")
+    own = [name for name in ("__eq__", "__hash__") if name in cls.methods]
+    if own and not problems:
+        raise AnalysisError(f"TwoBodyDecay defines {own} by hand: whether all fields take part in equality / hash is not read")
     if not {"parent", "children", "interaction"} <= set(fields):
-        problems.append(f"fields are {fields}, expected parent, children, interaction")
+        raise AnalysisError(f"vanished anchor: the fields of TwoBodyDecay are {fields} (parent, children, interaction confirmed)")
     ctx.verdict(not problems, "R-KEYIDENTITY", f"{cls.qual}::equality", tree.loc(cls.node),
                 f"TwoBodyDecay ({', '.join(decs)}) compares and hashes over all of its fields {fields}", problems or None)
 
@@ -623,40 +1105,39 @@ def check_dynamics_domain(ctx: Check, tree: Tree) -> None:
     permutations of each transition (`_perform_combinatorics`); the decays of those permuted
     transitions have other state ids, hence are other keys.  Either the selector registers them as
     well, or the lookup normalises the permuted decay to a registered one - otherwise
-    `if decay not in self.dynamics: return 1` silently drops the lineshape of the permuted terms."""
+    `if decay not in self.dynamics: return 1` silently drops the lineshape of the permuted terms.
+    Both sides are read from the symbolic execution: the chains the builder sums (sa/props/c02.py ChainModel) and
+    the keys __init__ registers - through whatever helpers / generators the loops are written."""
+    from .c02 import chain_model, coherent_sum
+
     builder = tree.cls(f"{HEL}::HelicityAmplitudeBuilder")
-    comb = "ampform.helicity::_perform_combinatorics"
-    users = [(m, call) for m in builder.methods.values() for call, callee in tree.calls_in(m, nested=True) if callee == comb
-             and m.name != "__init__"]
-    if not users:
+    model = chain_model(tree)
+    stores, terms = coherent_sum(model)
+    if len(stores) != 1 or not terms:
+        raise AnalysisError("R-DYNDOMAIN: the coherent sum of the builder was not read (see R-FOLD)")
+    permutes = any(mentions(e[1], "_perform_combinatorics") for eaches, _, _ in terms for e in eaches)
+    if not permutes:
         ctx.info("R-DYNDOMAIN", tree.loc(builder.node), "the builder does not formulate identical-particle permutations itself")
         return
-    sel = tree.cls(f"{HEL}::DynamicsSelector")
+    sel = tree.cls(SELECTOR)
     init = sel.methods.get("__init__")
     if init is None:
         raise AnalysisError("vanished anchor: DynamicsSelector.__init__")
-    rd = RD(init.node)
-    registers = [n for n in walk_function(init.node) if isinstance(n, ast.Assign) and isinstance(n.targets[0], ast.Subscript)]
-    if not registers:
+    run = MethodRun(tree, init)
+    store = _store_name(tree, sel)
+    regs = _registrations(run, store)
+    if not regs:
         raise AnalysisError("DynamicsSelector.__init__: no registration of decays found")
-    covered = False
-    for n in registers:
-        key = n.targets[0].slice
-        texts = [unparse(key)] + [unparse(d.value) for d in rd.closure(rd.uses(key)) if isinstance(d.value, ast.AST)]
-        loops = [a for a in ancestors(n) if isinstance(a, ast.For)]
-        texts += [unparse(l.iter) for l in loops]
-        for l in loops:
-            texts += [unparse(d.value) for d in rd.closure(rd.uses(l.iter)) if isinstance(d.value, ast.AST)]
-        if any("_perform_combinatorics(" in t for t in texts):
-            covered = True
-    # alternatively the lookup site normalises the decay
-    fd = builder.methods.get("__formulate_dynamics")
-    tolerant = fd is not None and any(isinstance(n, ast.Compare) and isinstance(n.ops[0], ast.NotIn) and "dynamics" in unparse(n.comparators[0]) for n in walk_function(fd.node))
-    m0, call0 = users[0]
+    covered = any(mentions(r[1], "_perform_combinatorics") for e in regs for r in e.ranges)
+    if not covered:
+        for e in regs:
+            w = not_followed(("tuple", (e.key, *[r[1] for r in e.ranges])), SEL_KNOWN)
+            if w:
+                raise AnalysisError(f"R-DYNDOMAIN: the registered decays are not read ({w})")
     ctx.verdict(covered, "R-DYNDOMAIN", f"{sel.qual}::permuted-decays-not-registered", tree.loc(init.node),
-                f"DynamicsSelector registers the decays of every graph of `_perform_combinatorics(transition)`, the chains that {m0.name} formulates",
+                "DynamicsSelector registers the decays of every graph of `_perform_combinatorics(transition)`, the chains that the builder formulates",
                 None if covered else {
-                    "why": f"{m0.qual} formulates `{unparse(call0)}`; TwoBodyDecay.from_transition of a permuted graph is not a key of the selector" + (" and __formulate_dynamics returns 1 for an unknown decay" if tolerant else ""),
+                    "why": "the builder sums the chains of `_perform_combinatorics(transition)`; TwoBodyDecay.from_transition of a permuted graph is not a key of the selector and __formulate_dynamics returns 1 for an unknown decay",
                     "observed": "J/psi -> gamma pi0 pi0 via omega(782), dynamics.assign('omega(782)', create_relativistic_breit_wigner): 8 of the 16 chain terms (those with the pi0 exchanged, angles phi_01) carry no Breit-Wigner - the amplitude is not symmetric under the exchange of the identical particles",
                 })
 
@@ -671,22 +1152,15 @@ def check_defaults_cover_expression(ctx: Check, tree: Tree) -> None:
     D.reset()
     te = TermEval(tree)
     pool, resonance, self_struct = builder_env(te)
-    cls = tree.cls(f"{BLD}::RelativisticBreitWignerBuilder")
-    symbols = te.eval_function(cls.methods["__create_symbols"], [resonance])
-    names = dict(zip(("mass", "width", "meson radius"), symbols.items))
+    cls = tree.cls(BUILDER)
+    results = builder_results(te, tree, self_struct, resonance, pool)
+    names = dict(zip(("mass", "width", "meson radius"), the_resonance_symbols(te, results)))
     atoms_of = {n: te.single_atom(te._rf(v)) for n, v in names.items()}
     call_m = cls.methods["__call__"]
-    cases = []
-    for edw in (False, True):
-        for ff in (False, True):
-            struct = {**self_struct, "energy_dependent_width": Opaque(edw), "form_factor": Opaque(ff)}
-            cases.append((f"RelativisticBreitWignerBuilder(energy_dependent_width={edw}, form_factor={ff})", call_m, [struct, resonance, pool]))
-    cases.append(("create_non_dynamic_with_ff", tree.func(f"{BLD}::create_non_dynamic_with_ff"), [resonance, pool]))
-    for label, fn, args in cases:
-        val = te.eval_function(fn, args)
-        if not (isinstance(val, Tup) and len(val.items) == 2 and isinstance(val.items[1], DictV)):
-            raise AnalysisError(f"{fn.qual}: does not return (expression, {{parameter: default}})")
-        expr, defaults = val.items
+    cases = [(f"RelativisticBreitWignerBuilder(energy_dependent_width={edw}, form_factor={ff})", call_m, results[edw, ff]) for edw in (False, True) for ff in (False, True)]
+    nd_ff = tree.func(f"{BLD}::create_non_dynamic_with_ff")
+    cases.append(("create_non_dynamic_with_ff", nd_ff, builder_pair(te.eval_function(nd_ff, [resonance, pool]), "create_non_dynamic_with_ff(resonance, variable_pool)")))
+    for label, fn, (expr, defaults) in cases:
         present = deep_atoms(te, expr)
         keys = {te.single_atom(te._rf(k)) for k, _ in defaults.items}
         missing = [n for n, a in atoms_of.items() if a in present and a not in keys]
